@@ -68,7 +68,7 @@ structure WfM (g : Merge) : Prop where
 
 def poll_tie_statement : Prop :=
   ∀ (g : Merge) (b : Eng Fix) (w : Nat),
-    WfM g → StreamStepsF b.w → b.s.dead = false →
+    WfM g → StreamStepsF b.w → (∀ c i, Wk.sub i ∈ b.w.handed c → i < g.roleKids.len) → b.s.dead = false →
     ∃ g' env' ret,
       Merge.poll_next g w ((absM g b).w.emit (.pollBegin w)) = some (g', env', ret) ∧
       (ret ≠ .ready none ∨ g.roleKids.len = 0 → WfM g') ∧
